@@ -1,6 +1,6 @@
 #!/bin/sh
 # tools/keep_seed.sh <Cxx> <name> "<caught by>" : verify the demo in the scratch worktree (fails with, passes without) and store the seed
-ID="$1"; NAME="$2"; CAUGHT="$3"; WT=/tmp/wt/$ID
+ID="$1"; NAME="$2"; CAUGHT="$3"; WT=${WT_BASE:-/tmp/wt}/$ID
 cd $WT || exit 2
 PYTHONPATH=$WT timeout 180 /venv/bin/python _out/demo.py >/dev/null 2>&1; WITH=$?
 git diff -- asyncfix > /tmp/keep_seed_$$.diff; git apply -R /tmp/keep_seed_$$.diff; PYTHONPATH=$WT timeout 180 /venv/bin/python _out/demo.py >/dev/null 2>&1; WITHOUT=$?; git apply /tmp/keep_seed_$$.diff; rm -f /tmp/keep_seed_$$.diff
